@@ -485,6 +485,10 @@ def _rand_case(rng):
             settings.append(["domid_format", S(rng.choice(["%s", "id_%s", "f_%s_x"]))])
         if rng.random() < 0.1:
             settings.append(["ordered_attributes", B(False)])
+        if rng.random() < 0.15:
+            # a counter that runs across all renderings of the case (one generator)
+            settings.append(["auto_tabindex", B(True)])
+            settings.append(["tabindex", I(rng.choice([1, 5, 100]))])
     renders = _mk_renders(rng, tree, form_mode)
     if rng.random() < 0.3:
         renders = _hold_tags(rng, renders)
